@@ -70,12 +70,12 @@ def _diff_text(a_doc, expected, **kw):
 
 
 # ---- column ---------------------------------------------------------------------------------------
-TYPE_KINDS = ['word', 'args', 'array', 'dotted', 'quoted', 'enum', 'enum_q']
+TYPE_KINDS = ['word', 'args', 'array', 'dotted', 'quoted', 'enum', 'enum_q', 'enum_elsewhere']
 DEFAULT_KINDS = ['none', 'int', 'float', 'true', 'false', 'null', 'str1', 'str2', 'str3', 'expr']
 ORDERS = ['id', 'rev', 'rot']
 
 
-def column(tkind, dkind, order='id', layout='one', case='same', quoted=False, K=2, legacy=False, fix=None):
+def column(tkind, dkind, order='id', layout='one', case='same', quoted=False, K=2, legacy=False, fix=None, props_on=False):
     """one column line; symbolic: name hole, note/default text hole, which settings are present"""
     ndom = QNAME if quoted else BARE
     args = ([('s_pk', IntRange(0, 2)), ('s_nn', IntRange(0, 2)), ('s_un', 'bool'), ('s_ai', 'bool'), ('s_note', 'bool')]
@@ -95,6 +95,9 @@ def column(tkind, dkind, order='id', layout='one', case='same', quoted=False, K=
             tsrc, texp = 'myschema.mytype', ('str', 'myschema.mytype')
         elif tkind == 'quoted':
             tsrc, texp = '"character varying"', ('str', 'character varying')
+        elif tkind == 'enum_elsewhere':
+            # an enum of that name exists only in another schema: the bare type is plain text
+            pre, tsrc, texp = 'Enum s.status {\n  on\n}\n', 'status', ('str', 'status')
         elif tkind == 'enum':
             pre, tsrc, texp = 'Enum status {\n  on\n}\n', 'status', ('enum', 'public', 'status')
         else:
@@ -161,7 +164,7 @@ def column(tkind, dkind, order='id', layout='one', case='same', quoted=False, K=
         enums = []
         if tkind == 'enum':
             enums = [('enum', 'public', 'status', None, (('item', 'on', '', None),))]
-        elif tkind == 'enum_q':
+        elif tkind in ('enum_q', 'enum_elsewhere'):
             enums = [('enum', 's', 'status', None, (('item', 'on', '', None),))]
         exp = _expect_db(enums=enums, tables=[_table('t', [_col(name, texp, pk, unique, nn, a['s_ai'], dexp, note), _col('other')])])
         return doc, exp, name
@@ -171,7 +174,8 @@ def column(tkind, dkind, order='id', layout='one', case='same', quoted=False, K=
         if quoted and _known_name_issue(name):
             return ''
         try:
-            db = docs.parse(doc)
+            # enabling arbitrary properties changes nothing for a document without properties
+            db = docs.parse(doc, **({'allow_properties': True} if props_on else {}))
         except Exception:
             return 'well-formed document rejected'
         reached()
@@ -182,7 +186,7 @@ def column(tkind, dkind, order='id', layout='one', case='same', quoted=False, K=
         return {'document': doc, 'difference': _diff_text(doc, exp)}
 
     h = Harness(body, args, describe=describe, fixed=fix,
-                bounds={'type': tkind, 'default': dkind, 'order': order, 'layout': layout, 'case': case, 'quoted': quoted,
+                bounds={'props_on': props_on, 'type': tkind, 'default': dkind, 'order': order, 'layout': layout, 'case': case, 'quoted': quoted,
                         'legacy': legacy, 'K': K})
     h.build = lambda a: build(dict(a, **(fix or {})))[:2]
     return h
@@ -569,6 +573,7 @@ def instances(tier):
             ('quoted', 'null', 'rev', 'multi', 'lower', False, True), ('enum', 'str3', 'id', 'one', 'same', True, False),
             ('enum_q', 'false', 'rot', 'one', 'upper', False, False), ('word', 'float', 'id', 'multi', 'mixed', False, True),
             ('args', 'true', 'rev', 'one', 'same', False, False), ('word', 'str2', 'id', 'one', 'same', False, False),
+            ('enum_elsewhere', 'str1', 'id', 'one', 'same', False, False),
         ]
     else:
         col_variants = []
@@ -582,7 +587,7 @@ def instances(tier):
         for mi in ([i % 4] if quick else [i % 4, (i + 1) % 4]):
             add(f"col/{tk}/{dk}/{od}/{lay}/{cs}/{'q' if q else 'b'}{'/legacy' if leg else ''}/m{mi}", 'column',
                 {'tkind': tk, 'dkind': dk, 'order': od, 'layout': lay, 'case': cs, 'quoted': q, 'K': K if (q or not quick) else 1,
-                 'legacy': leg, 'fix': masks[mi]}, T1)
+                 'legacy': leg, 'fix': masks[mi], 'props_on': (i % 3 == 2)}, T1)
     # ---- tables: alias / settings note / body note symbolic; schema, colour, blank lines fanned out
     forms = ['inline', 'block', 'triple']
     tmasks = [{'h_schema': True, 'h_color': False, 'blank': True, 'hs_multi': False}, {'h_schema': False, 'h_color': True, 'blank': False, 'hs_multi': True},
